@@ -155,7 +155,7 @@ func (r reqSpec) wire() []byte {
 	if r.absolute {
 		target = "http://example.com" + r.path
 	}
-	b.WriteString(r.method + " " + target + " HTTP/1.1\r\nHost: example.com\r\nX-A: " + r.hval + "\r\n")
+	b.WriteString(r.method + " " + target + " HTTP/1.1\r\nHost: example.com\r\nX-A: " + r.hval + "\r\nX-M: m1\r\nx-m: m2\r\n")
 	if r.close {
 		b.WriteString("Connection: close\r\n")
 	}
@@ -193,7 +193,7 @@ func (r resSpec) wire() []byte {
 	if r.http10 {
 		proto = "HTTP/1.0 "
 	}
-	b.WriteString(proto + strconv.Itoa(r.status) + " " + http.StatusText(r.status) + "\r\nX-B: " + r.hval + "\r\n")
+	b.WriteString(proto + strconv.Itoa(r.status) + " " + http.StatusText(r.status) + "\r\nX-B: " + r.hval + "\r\nX-N: n1\r\nx-n: n2\r\n")
 	if r.close {
 		b.WriteString("Connection: close\r\n")
 	}
